@@ -407,6 +407,55 @@ Definition add_block (n : node) (b : block) : node * result :=
            end
        end.
 
+(** *** pre-checks of addBlockInternal and blocks produced by the node itself *)
+(** VerifyTimestamp / VerifySign are consensus oracles: the environment decides their outcome for
+    each delivery.  A timestamp failure is transient and is NOT negatively cached, a signature
+    failure is. *)
+Inductive precheck := PreOk | PreTimestamp | PreSign.
+
+(** a block handed over by the local block factory together with its executed block state
+    (usedBState != nil): rejected as stale unless it extends the current best block; never parked;
+    no orphan resolution (chainProcessor.run for isByBP); the block state is only committed
+    (commitOnly) after ValidatePost, which the model expresses by [exec_ok] on the current root *)
+Definition add_own_block_internal (n : node) (b : block) : node * result * bool :=
+  match is_main_chain n b with
+  | None => (n, RErr, true)
+  | Some main =>
+      let r := if main then connect_main n b else Some (store_side n b) in
+      match r with
+      | None => (n, RErr, true)
+      | Some n1 =>
+          if negb main && (no (best n1) <? no b) then
+            match reorg n1 b with
+            | (n2, true) => (n2, RErr, true)
+            | (n2, false) => (n2, ROk, true)
+            end
+          else (n1, ROk, true)
+      end
+  end.
+
+Definition add_block_gen (own : bool) (pre : precheck) (n : node) (b : block) : node * result :=
+  if mem (hash_field b) (bad n) then (n, RCached)
+  else match get_block (dur n) (hash_field b) with
+       | Some _ => (n, RKnown)
+       | None =>
+           match pre with
+           | PreTimestamp => (n, RErr)                                   (* errBlockTimestamp, cache = false *)
+           | _ =>
+               if own && negb (prev b =? hash_field (best n)) then (n, RErr)   (* errBlockStale, cache = false *)
+               else match pre with
+                    | PreSign => (set_bad n (bad_add (hash_field b) (bad n)), RErr)
+                    | _ =>
+                        if own then
+                          match add_own_block_internal n b with
+                          | (n1, RErr, true) => (set_bad n1 (bad_add (hash_field b) (bad n1)), RErr)
+                          | (n1, r, _) => (n1, r)
+                          end
+                        else add_block n b
+                    end
+           end
+       end.
+
 (** An arrival: the environment first reports the current LIB. *)
 Definition arrive (n : node) (lb : N * block) : node :=
   fst (add_block (set_lib n (fst lb)) (snd lb)).
